@@ -276,6 +276,28 @@ CHECKS = {
              "statements by line.",
         technique="TLA+ rule model (TLC enumeration) + spec-to-implementation replay",
         ref="DESIGN.md section 4 C14"),
+    "C15": dict(
+        engine="Constness",
+        category="model_checking",
+        text="Constness.tla states the documented rule on chains of bindings: an expression in a "
+             "const position is a chain of bindings (:: local, := local, global, imported global) "
+             "ending in a base (literal, comptime block, comptime parameter, extern global, "
+             "arithmetic, call, struct member), and it is const iff the base is a literal / "
+             "comptime block / comptime parameter and every binding is immutable. TLC enumerates "
+             "chains x bases x the four positions (type annotation, array length, enum "
+             "discriminant, comptime argument of type or integer sort) x definition before / "
+             "after use, checks that constness is never regained by putting a binding in front, "
+             "and emits the verdict and the denoted value. Every case is one function (plus its "
+             "globals, imported ones in lib.capy; generic ones are instantiated) given to the "
+             "real front end - accepted iff const - and accepted array lengths are read back "
+             "from the built program (a.len).",
+        note="quick: chains of <= 2 bindings (581 cases), thorough: <= 3. Chains in which an "
+             "imported global refers back to a global of the importing file are left out "
+             "(counted in the evidence). Known findings F15-1..4 (four panic sites of the type "
+             "checker on const positions). Trusted: TLC, the renderer in tools/props/c15.py, "
+             "attribution of diagnostics to cases by line.",
+        technique="TLA+ rule model (TLC invariant + enumeration) + spec-to-implementation replay",
+        ref="DESIGN.md section 4 C15"),
     "C16": dict(
         engine="BV/CapySem",
         category="model_checking",
